@@ -11,15 +11,17 @@ import (
 
 func ms(d time.Duration) int { return int(d / time.Millisecond) }
 
-// runSleep: one SleepContext call. dl: deadline offset in ms (-1 none); cancelAt: cancellation offset (-1 never, 0 = before the call).
+// runSleep: one SleepContext call, all quantities in microseconds. dl: deadline offset (-1 none);
+// cancelAt: cancellation offset (-1 never, 0 = before the call).
 func runSleep(t *testing.T, d, dl, cancelAt int) ([]Ev, bool, string) {
 	return bubble(t, func(r *Run) {
 		time.Sleep(7 * time.Millisecond) // t0 is not the bubble's epoch
-		t0 := r.now()
+		us := func() int64 { return int64(time.Since(r.t0) / time.Microsecond) }
+		t0 := us()
 		ctx := context.Background()
 		var cancel context.CancelFunc = func() {}
 		if dl >= 0 {
-			ctx, cancel = context.WithDeadline(ctx, time.Now().Add(time.Duration(dl)*time.Millisecond))
+			ctx, cancel = context.WithDeadline(ctx, time.Now().Add(time.Duration(dl)*time.Microsecond))
 		} else {
 			ctx, cancel = context.WithCancel(ctx)
 		}
@@ -33,7 +35,7 @@ func runSleep(t *testing.T, d, dl, cancelAt int) ([]Ev, bool, string) {
 		}
 		done := make(chan out, 1)
 		go func() {
-			err := xtime.SleepContext(ctx, time.Duration(d)*time.Millisecond)
+			err := xtime.SleepContext(ctx, time.Duration(d)*time.Microsecond)
 			res := "nil"
 			var ts xtime.DeadlineTooSoonError
 			switch {
@@ -45,10 +47,10 @@ func runSleep(t *testing.T, d, dl, cancelAt int) ([]Ev, bool, string) {
 			default:
 				res = "other:" + err.Error()
 			}
-			done <- out{res, r.now()}
+			done <- out{res, us()}
 		}()
 		if cancelAt > 0 {
-			time.Sleep(time.Duration(cancelAt) * time.Millisecond)
+			time.Sleep(time.Duration(cancelAt) * time.Microsecond)
 			cancel()
 		}
 		o := <-done
@@ -141,6 +143,41 @@ func runTicker(t *testing.T, d, j int, steps []jtStep) ([]Ev, bool, string) {
 	})
 }
 
+// runStopRace: a ticker without jitter fires at k*d exactly. The harness sleeps until such an instant
+// and calls Stop at once - no quiescence in between, so Stop and the timer's callback race - then
+// watches the channel for 10*d.
+func runStopRace(t *testing.T, d, k int) ([]Ev, bool, string) {
+	return bubble(t, func(r *Run) {
+		tk := xtime.NewJitterTicker(time.Duration(d)*time.Millisecond, 0)
+		r.emit(Ev{"ev": "new", "d": d, "j": 0, "panic": 0})
+		drain := func() {
+			for {
+				select {
+				case ts := <-tk.C:
+					r.emit(Ev{"ev": "tick", "ts": ts.Sub(r.t0).Milliseconds()})
+				default:
+					return
+				}
+			}
+		}
+		for i := 1; i < k; i++ {
+			time.Sleep(time.Duration(d) * time.Millisecond)
+			synctest_wait()
+			drain()
+		}
+		time.Sleep(time.Duration(d) * time.Millisecond)
+		tk.Stop()
+		r.emit(Ev{"ev": "stop"})
+		synctest_wait()
+		drain()
+		for i := 0; i < 10*d; i++ {
+			time.Sleep(time.Millisecond)
+			synctest_wait()
+			drain()
+		}
+	})
+}
+
 func TestXTime(t *testing.T) {
 	rng := seededRand()
 	w := newTraceWriter(envStr("VH_OUT", "/tmp/xtime.ndjson"))
@@ -153,19 +190,26 @@ func TestXTime(t *testing.T) {
 		writeRuns(w, &runs, evs, leak, msg, Ev{})
 	}
 	// SleepContext: every combination of duration x deadline position x cancellation moment
-	for _, d := range []int{-5, 0, 1, 20, 3600000} {
-		dls := []int{-1, 0, 1, d / 2, d - 1, d, d + 1, 2 * d, 3600000 * 2}
+	const hour = 600 * 1000 * 1000 // "long": 10 min in microseconds (TLC integers are 32 bit)
+	for _, d := range []int{-5, 0, 1, 100, 1000, 20000, hour} { // microseconds
+		dls := []int{-1, 0, 1, d / 2, d - 100, d - 1, d, d + 1, d + 350, 2 * d, 2 * hour}
 		for _, dl := range dls {
 			if dl < -1 {
 				continue
 			}
 			for _, c := range []int{-1, 0, 1, d / 2, d - 1, d, d + 5} {
-				if c < -1 || c > 3600000*3 {
+				if c < -1 || c > 3*hour {
 					continue
 				}
 				put(runSleep(t, d, dl, c))
 			}
 		}
+	}
+	// Stop exactly at a firing instant (jitter 0 makes the instants known): Stop races the timer's callback
+	for i := 0; i < envInt("VH_STOPRACE", 200); i++ {
+		d := []int{2, 5, 10}[i%3]
+		k := 1 + i%3 // stop at the k-th firing instant
+		put(runStopRace(t, d, k))
 	}
 	// JitterTicker: (d, jitter) incl. jitter = 0, Reset and Stop at every phase relative to a firing timer
 	pairs := [][2]int{{2, 0}, {2, 1}, {3, 2}, {10, 0}, {10, 3}, {10, 9}, {50, 25}}
